@@ -239,12 +239,68 @@ func emptyRowSig(ki int, k keyEnt) (msg, sig []byte, row int) {
 	return nil, nil, -1
 }
 
+// rareShapes: honest signatures of pool key 0 whose hint section has a shape that is canonical but uncommon (one in
+// 200 .. 1000 signatures): found once per process by signing counter messages with the library, then presented as
+// VALID cases (a decoder that is a little too strict rejects exactly these).
+var rareShapeCache map[string][2][]byte
+
+func rareShapes(k keyEnt) map[string][2][]byte {
+	if rareShapeCache != nil {
+		return rareShapeCache
+	}
+	rareShapeCache = map[string][2][]byte{}
+	want := []string{"empty-row-after-non-empty", "first-row-empty", "row-starts-where-previous-row-ended", "position-255-in-a-row-of-several", "position-0-and-255-present"}
+	for n := 0; n < 3000 && len(rareShapeCache) < len(want); n++ {
+		m := []byte(fmt.Sprintf("rare-hint-shape-search-%d", n))
+		s, err := k.d.Sign(m)
+		if err != nil {
+			break
+		}
+		rows, ok := hintRows(s[:])
+		if !ok {
+			continue
+		}
+		shapes := map[string]bool{}
+		seen, has0, has255 := false, false, false
+		var prevLast = -1
+		for i, r := range rows {
+			if len(r) == 0 {
+				if seen {
+					shapes["empty-row-after-non-empty"] = true
+				} else if i == 0 {
+					shapes["first-row-empty"] = true
+				}
+				continue
+			}
+			seen = true
+			if int(r[0]) == prevLast {
+				shapes["row-starts-where-previous-row-ended"] = true
+			}
+			prevLast = int(r[len(r)-1])
+			if len(r) > 1 && r[len(r)-1] == 255 {
+				shapes["position-255-in-a-row-of-several"] = true
+			}
+			has0 = has0 || r[0] == 0
+			has255 = has255 || r[len(r)-1] == 255
+		}
+		if has0 && has255 {
+			shapes["position-0-and-255-present"] = true
+		}
+		for sh := range shapes {
+			if _, done := rareShapeCache[sh]; !done {
+				rareShapeCache[sh] = [2][]byte{m, append([]byte{}, s[:]...)}
+			}
+		}
+	}
+	return rareShapeCache
+}
+
 var craftKinds = []string{"valid", "valid-ref-signed", "dishonest-z", "dishonest-z", "dishonest-r0", "dishonest-challenge-byte", "dishonest-challenge-byte", "hint-after-255", "hint-swap", "hint-duplicate", "hint-padding", "hint-padding-pair", "hint-count-over", "hint-count-decreasing", "hint-count-into-padding", "hint-count-chain",
-	"other-message", "other-key", "z-set-extreme", "garbage", "garbage-keep-hints", "challenge-last-byte", "challenge-seed-hungry", "zero-response-honest-hints", "hint-empty-row-count-zeroed"}
+	"other-message", "other-key", "z-set-extreme", "garbage", "garbage-keep-hints", "challenge-last-byte", "challenge-seed-hungry", "zero-response-honest-hints", "hint-empty-row-count-zeroed", "valid-rare-hint-shape", "valid-rare-hint-shape"}
 
 func TestCrafted(t *testing.T) {
 	r := ev.New(t, prop, "TestCrafted")
-	r.Rule("rapid draws a key (pool of 4), a message and ONE crafted class: signatures from a DISHONEST reference signer holding the secret key that skips exactly one signing-side check (z-norm: everything the verifier recomputes matches, only the norm check can stop it; r0; hint count) or transmits a challenge differing in one byte from the honest one while using it consistently (only the final challenge comparison can stop it - every byte position is drawn), hint-encoding surgery that preserves the decoded hint set (swap, duplicate, non-zero padding, counts over 75 / decreasing / reaching into the padding / the count byte of an empty row lowered), other message / key, a challenge seed whose expansion consumes 97..102 stream bytes, a zero response / zero t1 under honest hints (hinted coefficients with low part exactly 0), a z coefficient forced to +-(gamma1-beta-1), +-(gamma1-beta), -gamma1+1, gamma1, garbage; oracle Verify_lib == Verify_spec, a-priori reject, Open consistent; non-trivial = passes all verifier-side conditions but one, or differs from a valid signature by one edit; distinct by (class, key, message, position)")
+	r.Rule("rapid draws a key (pool of 4), a message and ONE crafted class: honest signatures, also ones whose hint section has a canonical but uncommon shape (an empty row, a row that starts at the position where the previous one ended, position 255 in a row of several; searched once per process), signatures from a DISHONEST reference signer holding the secret key that skips exactly one signing-side check (z-norm: everything the verifier recomputes matches, only the norm check can stop it; r0; hint count) or transmits a challenge differing in one byte from the honest one while using it consistently (only the final challenge comparison can stop it - every byte position is drawn), hint-encoding surgery that preserves the decoded hint set (swap, duplicate, non-zero padding, counts over 75 / decreasing / reaching into the padding / the count byte of an empty row lowered), other message / key, a challenge seed whose expansion consumes 97..102 stream bytes, a zero response / zero t1 under honest hints (hinted coefficients with low part exactly 0), a z coefficient forced to +-(gamma1-beta-1), +-(gamma1-beta), -gamma1+1, gamma1, garbage; oracle Verify_lib == Verify_spec, a-priori reject, Open consistent; non-trivial = passes all verifier-side conditions but one, or differs from a valid signature by one edit; distinct by (class, key, message, position)")
 	ks := pool(r, 4)
 	checks := r.PerShard(r.Pick(3200, 80000))
 	r.Rapid(t, "craft", checks, func(rt *rapid.T) {
@@ -440,6 +496,17 @@ func TestCrafted(t *testing.T) {
 			copy(g[offHint:], s[offHint:])
 			c.Sig = g
 			c.Expect = "agree"
+		case "valid-rare-hint-shape":
+			sh := rapid.SampledFrom([]string{"empty-row-after-non-empty", "first-row-empty", "row-starts-where-previous-row-ended", "position-255-in-a-row-of-several", "position-0-and-255-present"}).Draw(rt, "shape")
+			e, ok := rareShapes(ks[0])[sh]
+			if !ok {
+				r.Count("rare_shape_not_found_"+sh, 1)
+				c.Sig, c.Expect, c.Class = honest(), "accept", "valid"
+				break
+			}
+			ki, k = 0, ks[0]
+			c.PK, c.Msg, c.Sig, c.Expect = k.ref.PK, e[0], e[1], "accept"
+			detail = "honest signature whose hint section has the shape: " + sh
 		case "hint-empty-row-count-zeroed":
 			// an honest signature with an EMPTY hint row after a non-empty one: its count byte repeats the previous count.
 			// Writing 0 (or any smaller value) there gives a second byte string for the same hint set - not canonical
